@@ -10,6 +10,7 @@ import (
 )
 
 var part = flag.String("part", "all", "prune|crash|all")
+var dumpLog = flag.Bool("dump-log", false, "crash part: print the canonical write log and the restart outcomes of every case")
 
 func main() {
 	log.Root().SetHandler(log.DiscardHandler())
@@ -18,17 +19,26 @@ func main() {
 		switch *part {
 		case "prune":
 			pruneWorker(r.Quick())
+		case "crash":
+			crashWorker(r.Quick())
 		}
 		vk.Fatalf("unknown worker part %q", *part)
 	}
 	evals := 0
+	rule := ""
+	if *part == "all" || *part == "crash" {
+		n := runCrash(r)
+		evals += n
+		rule += "crash: every history of 1-3 blocks over the block kinds x storage mode runs on the real node core over logging devices; every crash state of its write log (every prefix, every reachable reordering of the concurrent SaveBlock writes, torn undo-log appends; thorough: lost unsynchronised writes of up to two devices) is materialised, the real start-up recipe runs on it, every component is compared with the same prefix of the crash-free run, the rest of the history is committed and the final state compared. "
+	}
 	if *part == "all" || *part == "prune" {
 		n, _ := runPruning(r)
 		evals += n
 		r.Set("pruning_configurations", n)
+		rule += "pruning: chain length x retention window x validator-change height x (once | twice with one more block); every record needed for the retained heights is probed after each pruner"
 	}
 	r.Set("evaluations", evals)
 	r.Set("distinct_nontrivial", evals)
-	r.Set("rule", "pruning: chain length x retention window x validator-change height x (once | twice with one more block); every record needed for the retained heights is probed after each pruner")
+	r.Set("rule", rule)
 	r.Finish()
 }
